@@ -17,13 +17,15 @@ func init() {
 		Title: "The CDC disk queue is ordered, durable and prunes exactly what it is told",
 		Explanation: "C26.a WHO by field: the bbolt handle of cdc.Queue is touched only by NewQueue and the run goroutine (and its closures); the request channels are received from only in run — all cursor state lives in that one goroutine. " +
 			"C26.b DOM: in run's enqueue branch the ignore path is exactly idx <= highestKey; the item Put and the highest-key update happen inside the same bbolt Update closure; the caller is answered only after that transaction returned. " +
-			"C26.c DOM: in run's delete branch keys are collected from the first key while key <= idx (and only those are deleted), and the read cursor (nextFrom) is moved by a delete only forwards: the assignment nextFrom = idx+1 is reachable only on the edge nextFrom != 0 ∧ nextFrom <= idx.",
+			"C26.c DOM: in run's delete branch keys are collected from the first key while key <= idx (and only those are deleted), and the read cursor (nextFrom) is moved by a delete only forwards: the assignment nextFrom = idx+1 is reachable only on the edge nextFrom != 0 ∧ nextFrom <= idx. " +
+			"C26.d CONST: every integer ↔ bbolt key conversion in package cdc is big-endian (bbolt orders keys bytewise; First/Seek/Next and range deletes rely on key order = index order).",
 		NotCovered: []string{"ordering and durability across process kills (bbolt's guarantees)", "that an item is emitted at most once per open (depends on the interplay of head reloads; the forward-only cursor is its structural part)"},
 		Run:        runC26,
 	})
 }
 
 func runC26(c *core.Ctx) {
+	c26d(c)
 	methods := an.MethodsOf(c.P.AllFunctions(), "cdc", "Queue")
 	sort.Slice(methods, func(i, j int) bool { return methods[i].Name() < methods[j].Name() })
 	// C26.a
